@@ -190,7 +190,7 @@ def mod_str(mods):
 
 
 # --------------------------------------------------------------------------- gates / circuits
-EXP_SAFE_1Q = ["X", "Y", "Z", "H", "I", "S", "RX", "RY", "RZ", "PHASE", "GPi", "GPi2", "RH"]  # T.exp never returns
+EXP_SAFE_1Q = ["X", "Y", "Z", "H", "I", "S", "RX", "RY", "PHASE", "GPi", "GPi2", "RH"]  # T.exp / RZ(a).exp never return
 
 
 def rand_base_gate(rng, nprng, max_nq, *, symbolic=False, symbols=None, custom=0.15, allow_u3=True,
@@ -265,6 +265,9 @@ def rand_gate(rng, nprng, max_nq, *, symbolic=False, symbols=None, wrap=0.35, un
     else:
         g, d = rand_base_gate(rng, nprng, base_max, symbolic=symbolic, symbols=symbols, custom=custom,
                               allow_u3=allow_u3)
+    if "random unitary 3q" in d:
+        # inverse of a dense 8x8 float matrix takes seconds in sympy
+        mods = [("power_int", abs(m[1])) if m[0] == "power_int" else m for m in mods]
     for m in mods:
         g = apply_modifier(g, m)
     if mods:
